@@ -158,7 +158,7 @@ def run(ctx):
                             who = want
                 ctx.ob("E2.own-variant", f.key, who == want, "scheme dispatch switches on `%s` (must be the signature itself: `%s`)" % (who, want), where=where(f, b))
     # 5. pairing helpers: 1:1 pipeline
-    for fk in ("helpers::pairing_g1_g2", "helpers::pairing_g2_g1"):
+    for fk in ("<Bls12381G1Impl as Pairing>::pairing", "<Bls12381G2Impl as Pairing>::pairing"):
         check_pipeline(ctx, P, fk)
     ctx.assume("Pairing::pairing of the backend computes the product of pairings; final exponentiation is correct")
 
@@ -194,7 +194,7 @@ PIPE_OK = {"slice::<impl [T]>::iter", "Iterator::map", "Iterator::collect", "Vec
 PIPE_SINK = ("multi_miller_loop", "MultiMillerLoop::multi_miller_loop")
 
 
-def check_pipeline(ctx, P, fk, rule="E5.pipeline"):
+def check_pipeline(ctx, P, fk, rule="E5.pipeline", _depth=0):
     f = ctx.need_fn(rule, fk)
     if f is None:
         return
@@ -205,6 +205,10 @@ def check_pipeline(ctx, P, fk, rule="E5.pipeline"):
     ret = strip_sites(inline(P, ev.ret, 2, only=lambda g: not g.cfg.back_edges() and g.kind != "Closure"))
     sinks = [s for s in subterms(ret) if s.op == "call" and (B.cname(s) in PIPE_SINK or B.cname(s).endswith("multi_miller_loop"))]
     if len(sinks) != 1:
+        # the pairing may be handed as a whole to one crate function with loops of its own: the rule is decided there
+        inner = [B.cname(s) for s in subterms(ret) if s.op == "call" and B.cname(s) in P.fns and B.cname(s) != fk and P.fns[B.cname(s)].kind != "Closure"]
+        if len(set(inner)) == 1 and _depth < 2:
+            return check_pipeline(ctx, P, inner[0], rule, _depth + 1)
         ctx.ob(rule + ".anchor", fk, False, "Miller-loop call not found in %s" % fk, where=where(f))
         return
     fe = ret.op == "call" and B.cname(ret).endswith("final_exponentiation")
